@@ -630,6 +630,16 @@ func TaskSteps() int64 {
 	return cur.cur.steps
 }
 
+// TaskID returns the index of the task that is running (0 outside a run).
+//
+//go:norace
+func TaskID() int {
+	if !active {
+		return 0
+	}
+	return cur.cur.id
+}
+
 // GlobalStep returns the scheduler's step counter of the current run.
 //
 //go:norace
